@@ -20,6 +20,8 @@ pub enum Kind {
     Garbage,
     /// an address of the other family: the node's socket refuses to send to it
     Unsendable,
+    /// answers like `Answer`, but every reply is sent twice in the same instant
+    AnswerTwice,
 }
 
 #[derive(Clone, Debug, Serialize, Deserialize)]
@@ -40,6 +42,10 @@ pub struct Case {
     outages: Vec<(u32, u32)>,
     /// times (ms) at which bootstrapped() is called
     waiters: Vec<u32>,
+    /// callers that give up: (call time ms, dropped after ms) — their future is dropped while
+    /// other callers keep waiting
+    #[serde(default)]
+    quitters: Vec<(u32, u32)>,
     /// serving nodes only: a stranger pings the node every `.0` ms and each reply takes `.1` ms to
     /// send (busy event loop), while get_state() is polled every 97 ms
     #[serde(default)]
@@ -51,7 +57,7 @@ pub struct Boot;
 
 fn contact() -> impl Strategy<Value = Contact> {
     (
-        prop_oneof![8 => Just(Kind::Answer), 6 => Just(Kind::Silent), 2 => Just(Kind::KrpcError), 2 => Just(Kind::Garbage), 1 => Just(Kind::Unsendable)],
+        prop_oneof![8 => Just(Kind::Answer), 6 => Just(Kind::Silent), 2 => Just(Kind::KrpcError), 2 => Just(Kind::Garbage), 1 => Just(Kind::Unsendable), 2 => Just(Kind::AnswerTwice)],
         prop_oneof![6 => Just((true, false)), 2 => Just((false, true)), 2 => Just((true, true))],
         prop_oneof![3 => Just(0u16), 3 => 1u16..400, 2 => 400u16..2400, 1 => 2400u16..2600, 1 => 2600u16..9000],
     )
@@ -92,8 +98,9 @@ impl Stage for Boot {
             vec(prop_oneof![Just(0u32), 0u32..5_000, 0u32..200_000, 0u32..3_000_000], 0..12),
             any::<u64>(),
             proptest::option::weighted(0.4, (300u16..1500, 10u16..70).prop_map(|(period, pct)| (period, (period as u32 * pct as u32 / 100) as u16))),
+            prop_oneof![2 => Just(vec![]), 1 => vec((prop_oneof![Just(0u32), 0u32..5_000, 0u32..200_000], prop_oneof![1u32..3_000, 1u32..60_000]), 1..4)],
         )
-            .prop_map(|(v6, read_only, contacts, outages, waiters, rt_seed, busy)| Case { v6, read_only, contacts, outages, waiters, busy, rt_seed })
+            .prop_map(|(v6, read_only, contacts, outages, waiters, rt_seed, busy, quitters)| Case { v6, read_only, contacts, outages, waiters, quitters, busy, rt_seed })
             .boxed()
     }
     fn run(&self, c: &Case) -> Outcome {
@@ -129,7 +136,7 @@ impl Stage for Boot {
             // yields a table with >= 10 good nodes: such a node never re-bootstraps, and a waiter
             // that missed the completion is never rescued by a later one
             let mut silent_named: Vec<(Id, SocketAddr)> = c.contacts.iter().enumerate().filter(|(_, ct)| ct.kind == Kind::Silent).take(12).map(|(i, _)| (cid(i), addrs[i])).collect();
-            silent_named.extend(c.contacts.iter().enumerate().filter(|(_, ct)| ct.kind == Kind::Answer).take(16).map(|(i, _)| (cid(i), addrs[i])));
+            silent_named.extend(c.contacts.iter().enumerate().filter(|(_, ct)| matches!(ct.kind, Kind::Answer | Kind::AnswerTwice)).take(16).map(|(i, _)| (cid(i), addrs[i])));
             for (i, ct) in c.contacts.iter().enumerate() {
                 let sched = sched.clone();
                 let kind = ct.kind;
@@ -147,9 +154,14 @@ impl Stage for Boot {
                     }
                     match kind {
                         Kind::Silent | Kind::Unsendable => vec![],
-                        Kind::Answer => {
+                        Kind::Answer | Kind::AnswerTwice => {
                             let (nodes, nodes6) = node_lists(&named);
-                            vec![Out::after(delay, from, &resp(&m.tid, KResp { id: id.to_vec(), nodes, nodes6, ..Default::default() }))]
+                            let r = resp(&m.tid, KResp { id: id.to_vec(), nodes, nodes6, ..Default::default() });
+                            if kind == Kind::AnswerTwice {
+                                vec![Out::after(delay, from, &r), Out::after(delay, from, &r)]
+                            } else {
+                                vec![Out::after(delay, from, &r)]
+                            }
                         }
                         Kind::KrpcError => vec![Out::after(delay, from, &KMsg { tid: m.tid.clone(), body: KBody::Error { code: 202, msg: "Server Error".into() } })],
                         Kind::Garbage => vec![Out { delay: Duration::from_millis(delay), to: from, bytes: b"d1:t4:junk1:y1:".to_vec() }],
@@ -174,6 +186,16 @@ impl Stage for Boot {
                 });
             }
 
+            for (at, after) in &c.quitters {
+                let dht = dht.clone();
+                let net = net.clone();
+                let (at, after) = (*at, *after);
+                tokio::spawn(async move {
+                    net.sleep_until(Duration::from_millis(at as u64)).await;
+                    // dropped when the time is up
+                    let _ = within(Duration::from_millis(after as u64), dht.bootstrapped()).await;
+                });
+            }
             if let Some((period, _)) = busy {
                 let horizon = (t_up + 700_000).min(3_600_000);
                 spawn_pinger(&net, pinger, node, 50, period as u64, (horizon / period as u64) as u32);
@@ -190,7 +212,7 @@ impl Stage for Boot {
             }
             let plain = routers.is_empty() && !nodes.is_empty();
             // a contact is responsive if its answer arrives within the 2.5 s the initial round waits
-            let some_answerer = c.contacts.iter().any(|c| c.kind == Kind::Answer && c.as_node && c.delay_ms < 2400);
+            let some_answerer = c.contacts.iter().any(|c| matches!(c.kind, Kind::Answer | Kind::AnswerTwice) && c.as_node && c.delay_ms < 2400);
             let last_waiter = c.waiters.iter().max().copied().unwrap_or(0) as u64;
             let end = t_up.max(last_waiter) + 700_000;
             // liveness sampling
@@ -266,7 +288,7 @@ impl Stage for Boot {
         })
     }
     fn rule(&self) -> String {
-        "builder configurations: 0..40 contacts (or a crowd of 10..17 prompt answering nodes plus 0..3 silent ones, which yields >= 10 good nodes and hence a single bootstrap), each given as node, as router (literal ip:port) or both, each answering (and naming the silent ones and the other answering ones) / silent / unsendable (an address of the other family: send_to fails) / answering with a KRPC error / answering garbage after 0..9 s (answers later than the 2.5 s initial-round timeout count as unresponsive for the deadline); read-only on/off; outage patterns (none, 1..3 outages of 1 ms..30 min with up-times from 1 s, flapping 4..12 times with 1..2 s up-times, one outage of 10 min..2 h) during which no contact answers; 0..12 bootstrapped() callers at times 0..50 min; optionally (serving nodes) a stranger pinging every 0.3..1.5 s with replies that take 10..70 % of the period to send, and get_state() polled every 97 ms (commands and state changes pile up behind a busy event loop). Oracle: API liveness sampled ~400 times over the run; no contacts => waiters true at once and no traffic; contacts => no waiter resolves before the first response reaches the node; plain nodes with an answering contact => every waiter true by max(call, network-up) + 660 s. Non-trivial: an outage > 60 s with >= 2 distinct waiter times, or a router/node overlap, or > 9 contacts".into()
+        "builder configurations: 0..40 contacts (or a crowd of 10..17 prompt answering nodes plus 0..3 silent ones, which yields >= 10 good nodes and hence a single bootstrap), each given as node, as router (literal ip:port) or both, each answering (and naming the silent ones and the other answering ones) / silent / unsendable (an address of the other family: send_to fails) / answering with a KRPC error / answering garbage after 0..9 s (answers later than the 2.5 s initial-round timeout count as unresponsive for the deadline); read-only on/off; outage patterns (none, 1..3 outages of 1 ms..30 min with up-times from 1 s, flapping 4..12 times with 1..2 s up-times, one outage of 10 min..2 h) during which no contact answers; 0..12 bootstrapped() callers at times 0..50 min, optionally 1..3 more callers that drop their future after 1 ms..60 s while the others keep waiting; answering contacts that send every reply twice; optionally (serving nodes) a stranger pinging every 0.3..1.5 s with replies that take 10..70 % of the period to send, and get_state() polled every 97 ms (commands and state changes pile up behind a busy event loop). Oracle: API liveness sampled ~400 times over the run; no contacts => waiters true at once and no traffic; contacts => no waiter resolves before the first response reaches the node; plain nodes with an answering contact => every waiter true by max(call, network-up) + 660 s. Non-trivial: an outage > 60 s with >= 2 distinct waiter times, or a router/node overlap, or > 9 contacts".into()
     }
     fn sample(&self, c: &Case) -> serde_json::Value {
         serde_json::json!({"contacts": c.contacts.iter().take(6).map(|x| format!("{:?}/{}{}", x.kind, if x.as_node {"N"} else {""}, if x.as_router {"R"} else {""})).collect::<Vec<_>>(), "n_contacts": c.contacts.len(), "outages": c.outages, "waiters": c.waiters})
